@@ -22,7 +22,7 @@ func init() {
 		ID: "C15",
 		Rule: "cases: for each of the five key types, payloads of 1 B..4 KiB (binary and JSON) signed with the library's signers via SignPayload and SignModel; oracle by construction: verify under the matching JWK must succeed and return the payload; under every other key (same and other types) must fail; every single-bit change of the decoded header, payload and signature (all bits for one JWS per key type, strided otherwise; segments re-encoded) must fail; wrong-length signatures, unsupported kty/crv and malformed compact splits must error. Signing is repeated until signatures with a leading zero byte in r or s were seen for every EC curve. distinct = (key type, payload class, tampering class, segment, bit-position bucket).",
 		Assumptions: []string{"forgery resistance of Ed25519 / ECDSA (a random bit flip does not yield a valid signature)", "harness base64url codec"},
-		Require:     []string{"verify-ok", "other-key", "bit-flip-header", "bit-flip-payload", "bit-flip-signature", "malformed", "leading-zero-rs"},
+		Require:     []string{"verify-ok", "signer-reuse", "other-key", "bit-flip-header", "bit-flip-payload", "bit-flip-signature", "malformed", "leading-zero-rs"},
 		Workers:     func(string) int { return 15 },
 		Run:         runC15,
 	})
@@ -124,6 +124,22 @@ func c15Case(c *fw.Case, typ string, allBits bool) {
 		c.Failf("payload-changed", map[string]interface{}{"jws": compact, "payload_b64": oracle.B64(payload), "got_b64": oracle.B64(parsed.Payload)}, "VerifyJWS returned a different payload")
 	}
 	c.Sample(map[string]interface{}{"key_type": typ, "jws": compact, "jwk": k.JWK()})
+	// the same signer object signs several payloads: every one of them must verify (no state carried between calls)
+	reused := signerFor(k, kid)
+	for i := 0; i < 3; i++ {
+		p2 := append([]byte(fmt.Sprintf("reuse-%d-", i)), r.Bytes(r.Range(1, 40))...)
+		c2, err := signutil.SignPayload(p2, reused)
+		c.Count("signer-reuse", 1)
+		c.Evals(1)
+		if err != nil {
+			c.Failf("sign-error", map[string]interface{}{"key_type": typ, "err": err.Error()}, "signing failed on reuse: %v", err)
+			break
+		}
+		if pr, err := jwsutil.VerifyJWS(c2, jwk); err != nil || !bytes.Equal(pr.Payload, p2) {
+			c.Failf("reused-signer-jws-refused", map[string]interface{}{"jws": c2, "jwk": k.JWK(), "call_number": i + 1, "err": fmt.Sprint(err)}, "JWS number %d made by one signer object does not verify: %v", i+1, err)
+			break
+		}
+	}
 	// other keys
 	for _, ot := range gen.AllKeyTypes {
 		o := gen.NewKey(r, ot)
